@@ -2,7 +2,7 @@
    Statements only, over Model/IsoBuild.build_image (buildFS byte for byte; the differential job `iso`
    compares the model's metadata area with the real one by hash on every run). *)
 From Verif Require Import Lib.Bytes Model.Path Model.Fs Gen.Consts Model.IsoRead Model.IsoBuild Spec.IsoReadSpec
-  Proofs.IsoReadProofs Proofs.IsoBuildProofs.
+  Proofs.IsoReadProofs Proofs.IsoBuildProofs Proofs.IsoLinksProofs Model.Sfo Proofs.SfoProofs.
 
 (* sizes: the metadata area is a whole number of sectors and ends exactly where the first file starts; the
    files tile the file area; the pad area has at least 32 sectors; the announced size is metadata + files +
@@ -57,12 +57,32 @@ Theorem C08_ps3_sectors : forall root v gc now rnd bi,
     ++ pad_to console_id 16 32 ++ pad_to (firstn 4 gc ++ [45] ++ skipn 4 gc) 32 32 ++ tail.
 Proof. exact ps3_sectors_declared. Qed.
 
+(* "." and "..": in both hierarchies the i-th directory's extent starts at base*2048 + the extents of the
+   directories before it; its "." record carries exactly that location and the extent's length; its ".." record
+   carries the "." location of the directory the scan found it in, which is listed earlier; "." and ".." of the
+   root are the root itself.  pre is the 2048-aligned metadata before the directory area. *)
+Theorem C08_links : forall root v ps3 gc now rnd bi, build_image root v ps3 gc now rnd = Ok bi ->
+  exists ds f_iso f_jol pre iso_lba jol_lba,
+    bi_fsbuf bi = pre ++ dirs_bytes f_iso ++ dirs_bytes f_jol /\
+    zlen pre = iso_lba * sector_size /\ zlen (pre ++ dirs_bytes f_iso) = jol_lba * sector_size /\
+    length f_iso = length ds /\ length f_jol = length ds /\
+    hier_links_strong ds f_iso iso_lba /\ hier_links_strong ds f_jol jol_lba.
+Proof. exact built_links. Qed.
+
+(* PARAM.SFO: for every well-formed file - any number of entries in any order, NUL-free keys, any values,
+   up to 64 KiB - sfoField returns the value of the first entry with the requested key (TITLE_ID) *)
+Theorem C08_sfo_field : forall es field v, sfo_wf es -> first_value es field = Some v ->
+  sfo_field (encode_sfo es) field = Ok v.
+Proof. exact sfo_roundtrip. Qed.
+
 Print Assumptions C08_sizes.
 Print Assumptions C08_volume_space.
 Print Assumptions C08_record_length.
 Print Assumptions C08_records.
 Print Assumptions C08_path_tables.
 Print Assumptions C08_ps3_sectors.
+Print Assumptions C08_links.
+Print Assumptions C08_sfo_field.
 
 (* non-vacuity: a directory of 60 files with 30-character names spills over a sector in both hierarchies;
    it builds, and no record starts where it would cross a sector boundary *)
